@@ -1,8 +1,34 @@
 PROP = dict(
     harness="c15", level="fault_enumeration", exhaustive_capable=True,
-    quick=dict(cases=1600, max_size=60, workers=16),
-    thorough=dict(cases=40000, max_size=90, workers=16),
-    rule="tbd",
-    assumptions=[],
+    quick=dict(cases=4800, max_size=60, workers=16, extra_args=["--instances=2"]),
+    thorough=dict(cases=160000, max_size=90, workers=16, extra_args=["--instances=24"]),
+    rule=("one case = (workload, instantiation, fault plan). Workloads: W1 x86-64/AArch64 Assembler with labels, 1-3 sections, "
+          "embed_label/embed_label_delta/absolute call+jmp (relocations, address table), const pool, flatten, resolve_cross_section_fixups, "
+          "relocate_to_base, copy_flattened_data (also after reinit()); W2 the same programs through x86/a64 Builder + finalize; W3 x86/a64 "
+          "Compiler functions with 3-32 virtual registers (spills), loops, branches, invoke, constants, stack slots, finalize; W4 "
+          "JitRuntime::add/release, JitAllocator alloc/write/shrink/release/query with option sets, VirtMem alloc/protect/dual mapping; "
+          "W5 ArenaVector/ArenaHash/ArenaString/String/ConstPool/ArenaBitSet/Arena::dup sharing one Arena. Fault plans: the k-th arena "
+          "request (hook H1), the k-th malloc/realloc/calloc, the k-th mmap/mprotect/ftruncate/memfd_create/shm_open (linker --wrap) - "
+          "enumerated for EVERY k of fixed instantiations, plus 'every request from k on', 'every request issued by one function' and "
+          "random multi-failure plans on generated instantiations. A case is non-trivial when its fault was actually injected and made "
+          "an API call return an error; distinct = distinct case text"),
+    assumptions=["ASan+UBSan build with ASMJIT_ASSERT active; -DASMJIT_VERIF arena hook H1 (add-only) is the only change to the library",
+                 "heap / virtual-memory faults are injected only into calls made from AsmJit's own objects (linker --wrap); libc/libstdc++ internals never fail",
+                 "every AsmJit return value is checked and the workload stops at the first error (a 'continue after the error' mode exists for W1/W5 where every later call validates its arguments)",
+                 "process-wide one-time probes of virtmem.cpp (hardened runtime, memfd/shm strategy) are warmed up before faults are armed",
+                 "a faulted run that reports success must produce byte-identical output; constant-pool layout in W5 is judged by content (a failed gap record legitimately changes the layout)"],
 )
-META = dict(engine="rapidcheck", technique="fault injection", level_text="tbd", level_note="tbd", design_ref="DESIGN.md section 4, C15")
+META = dict(
+    engine="rapidcheck + deterministic enumeration (vh_enum)",
+    technique="fault injection: arena hook + linker-wrapped malloc/realloc/calloc/mmap/mprotect/ftruncate/memfd_create; enumeration of every fault position + generated multi-failure plans",
+    level_text=("Fault enumeration: for fixed instantiations of each of the five workloads (both architectures, four JIT allocator option sets) "
+                "EVERY arena, heap and virtual-memory request position k of a clean run is failed once (exhaustive for those instantiations), "
+                "plus persistent failures per requesting function and from position k on; rapidcheck adds generated instantiations x random "
+                "single/multi-failure plans. Each plan is judged by: no crash/ASan/UBSan/assert/exception; error reported or byte-identical "
+                "output; reset + fault-free re-run on the SAME objects byte-identical to a never-faulted run; no leaked heap block, mapping or "
+                "descriptor (own accounting of wrapped calls) and a clean LeakSanitizer recoverable check after every plan."),
+    level_note=("Exhaustive only for the enumerated instantiations (exhaustive=true in the evidence means that share was completed). Equivalence of "
+                "differently laid out but correct code is not judged (any difference in a successful run is reported). Failures of munmap/close and "
+                "of libc-internal allocations are not modelled; the one-time virtmem probes are excluded by warm-up."),
+    design_ref="DESIGN.md section 4, C15; section 7 rows 8, 9",
+)
